@@ -210,7 +210,10 @@ def map(
     # Distance to the plane
     diagonal = np.sqrt(ndim)
     xyz = position - origin
-    selection_distance = 0.5 * diagonal * (dz if thick else cell_size)
+    selection_distance = 0.5 * diagonal * cell_size
+    if thick:
+        # A cell can reach into the slab from a distance of half its diagonal
+        selection_distance = selection_distance + 0.5 * dz
 
     normal = basis.n
     vec_u = basis.u
